@@ -306,3 +306,8 @@ Theorem C10_ready_only_for_a_correct_header_set : forall cf app keys wf zt ct dt
              lower_s (strip (value_text h)) = lower_s (b64_encode (sha1 (b64_encode rand16 ++ WS_GUID)))).
 Proof. exact ready_needs_digest_headers. Qed.
 Print Assumptions C10_ready_only_for_a_correct_header_set.
+
+(* SHA-1's padding is a faithful encoding: messages shorter than 2^61 bytes with the same padded form are equal *)
+Theorem C10_sha1_padding_injective : forall m m', blen m < 2305843009213693952 -> blen m' < 2305843009213693952 ->
+  sha1_pad m = sha1_pad m' -> m = m'.
+Proof. exact sha1_pad_inj. Qed.
